@@ -645,10 +645,26 @@ Proof.
   - intros cl tp X. rewrite R4, F4, K3 in X. destruct (s_clean s0); [discriminate|]. exact (iUd cs I _ _ X).
 Qed.
 
+(** ** a foreign write of the stored session while nobody is registered *)
+Lemma storeput_inv tp cs : CInv cs -> reg cs = None ->
+  CInv (set_dbv (Some (false, aset_all String.eqb tp [])) cs).
+Proof.
+  intros I R. constructor; cbn [reg smp heap dbv tri conns set_dbv].
+  - rewrite R. discriminate.
+  - exact (iL cs I).
+  - exact (iB cs I).
+  - exact (iS cs I).
+  - exact (iN cs I).
+  - rewrite R. discriminate.
+  - rewrite R. discriminate.
+  - exact (iU cs I).
+  - intros cl tp0 X. inversion X; subst. apply (NoDup_keys_aset_all String.eqb string_eqb_spec). constructor.
+Qed.
+
 (** ** every step preserves the invariant *)
 Lemma cstep_inv cs e : CInv cs -> CInv (cstep ideal cs e).
 Proof.
-  intro I. destruct e as [k clean|k|k fs|k fs|k|]; cbn [cstep].
+  intro I. destruct e as [k clean|k|k fs|k fs|k| |tp]; cbn [cstep].
   - destruct (zget k (conns cs)) eqn:G; [exact I|]. apply (connect_effect k clean cs I G).
   - destruct (zget k (conns cs)) as [c|] eqn:G; [|exact I]. rewrite (iB cs I _ _ G). exact I.
   - destruct (zget k (conns cs)) as [c|] eqn:G; [|exact I].
@@ -669,6 +685,7 @@ Proof.
     + apply (owner_inv k c cs I G O).
     + rewrite (teardown_nonowner k c cs I G O). apply nonowner_inv; [exact I|]. exact (not_owner_reg k c cs I G O).
   - apply admin_inv. exact I.
+  - destruct (reg cs) as [j|] eqn:R; [exact I|]. apply storeput_inv; assumption.
 Qed.
 
 Theorem crun_inv es : forall cs, CInv cs -> CInv (crun ideal cs es).
@@ -757,6 +774,26 @@ Proof.
   - apply GO; [exact I| |exact FR]. unfold prev_sess. rewrite M, NC. reflexivity.
 Qed.
 
+(** with nobody connected and no live session object, a persistent session written into the storage (by another
+    broker instance) is what the next cleanSession=false connect gets *)
+Theorem reconnect_reads_store es tp k' :
+  let cs := crun ideal cstate0 es in
+  reg cs = None -> smp cs = None -> zget k' (conns cs) = None ->
+  let cs2 := cstep ideal (cstep ideal cs (CStorePut tp)) (CConnect k' false) in
+  reg cs2 = Some k' /\ (forall f, sget f (tri cs2) = sget f (aset_all String.eqb tp [])).
+Proof.
+  cbv zeta. intros R M FR. pose proof (crun_inv es cstate0 inv0) as I. set (cs := crun ideal cstate0 es) in *.
+  pose proof (cstep_inv cs (CStorePut tp) I) as I1.
+  assert (cstep ideal cs (CStorePut tp) = set_dbv (Some (false, aset_all String.eqb tp [])) cs) as E
+      by (cbn [cstep]; rewrite R; reflexivity).
+  rewrite E in *. set (cs1 := set_dbv (Some (false, aset_all String.eqb tp [])) cs) in *.
+  assert (zget k' (conns cs1) = None) as F1 by exact FR.
+  cbn [cstep]. rewrite F1.
+  destruct (connect_effect k' false cs1 I1 F1) as [_ [R2 [sid' [_ [_ [_ RS]]]]]].
+  assert (prev_sess cs1 = Some (false, aset_all String.eqb tp [])) as P by (unfold prev_sess; cbn [smp cs1 set_dbv dbv]; rewrite M; reflexivity).
+  destruct (RS _ eq_refl P) as [_ [E2 _]]. split; [exact R2 | exact E2].
+Qed.
+
 (** cleanSession=true: the previous session is discarded - no subscription survives, whatever the state *)
 Theorem clean_discards es k' :
   let cs := crun ideal cstate0 es in
@@ -790,7 +827,7 @@ Theorem registration_survives es k e :
   reg (cstep ideal cs e) = Some k.
 Proof.
   cbv zeta. intros R N1 N2 N3. pose proof (crun_inv es cstate0 inv0) as I. set (cs := crun ideal cstate0 es) in *.
-  destruct e as [k0 clean|k0|k0 fs|k0 fs|k0|]; cbn [cstep].
+  destruct e as [k0 clean|k0|k0 fs|k0 fs|k0| |tp0]; cbn [cstep].
   - exfalso. exact (N2 k0 clean eq_refl).
   - destruct (zget k0 (conns cs)) as [c|] eqn:G; [|exact R]. rewrite (iB cs I _ _ G). exact R.
   - destruct (zget k0 (conns cs)) as [c|] eqn:G; [|exact R].
@@ -810,6 +847,7 @@ Proof.
   - assert (k <> k0) as NK by (intro X; subst; apply N1; reflexivity).
     destruct (superseded_teardown_is_noop es k0 k R NK) as [R' _]. cbn [cstep] in R'. fold cs in R'. rewrite R'. exact R.
   - exfalso. apply N3. reflexivity.
+  - rewrite R. exact R.
 Qed.
 
 (** ** the broker is the product of the per-id machines *)
@@ -833,6 +871,7 @@ Fixpoint project (ow : list (Z * string)) (cid : string) (es : list ev) : list c
       | Unsubscribe k fs => here k (CUnsubscribe k fs) ++ project ow cid t
       | Teardown k => here k (CTeardown k) ++ project ow cid t
       | AdminDelete c => (if String.eqb c cid then [CAdminDelete] else []) ++ project ow cid t
+      | StorePut c tp => (if String.eqb c cid then [CStorePut tp] else []) ++ project ow cid t
       | Publish _ => project ow cid t
       end
   end.
@@ -857,7 +896,7 @@ Proof.
                        /\ owners (at_owner q k ce st) = owners st) as AO.
   { intros k ce. unfold at_owner. destruct (zget k (owners st)) as [c|]; [|split; reflexivity].
     rewrite cget_at_cid. destruct (String.eqb c cid); split; reflexivity. }
-  destruct e as [k c clean|k|k fs|k fs|k|c|tp]; cbn [step].
+  destruct e as [k c clean|k|k fs|k fs|k|c|c tp0|tp]; cbn [step].
   - destruct (zget k (owners st)) eqn:G; [apply IH|].
     rewrite IH. cbn [owners]. rewrite fold_left_app. f_equal.
     unfold cget. cbn [cids]. destruct (String.eqb c cid) eqn:E.
@@ -867,6 +906,8 @@ Proof.
   - rewrite IH. destruct (AO k (CSubscribe k fs)) as [A1 A2]. rewrite A2, fold_left_app, A1. reflexivity.
   - rewrite IH. destruct (AO k (CUnsubscribe k fs)) as [A1 A2]. rewrite A2, fold_left_app, A1. reflexivity.
   - rewrite IH. destruct (AO k (CTeardown k)) as [A1 A2]. rewrite A2, fold_left_app, A1. reflexivity.
+  - rewrite IH. cbn [owners at_cid]. rewrite fold_left_app. f_equal.
+    rewrite cget_at_cid. destruct (String.eqb c cid); reflexivity.
   - rewrite IH. cbn [owners at_cid]. rewrite fold_left_app. f_equal.
     rewrite cget_at_cid. destruct (String.eqb c cid); reflexivity.
   - apply IH.
